@@ -681,7 +681,7 @@ fn c05_cases(thorough: bool, v: &mut dyn FnMut(Case)) {
     let fams = [Family::Exp1Off, Family::Exp2Off, Family::Exp3, Family::GaussDecayOff];
     for (fi, fam) in fams.iter().enumerate() {
         for (ti, (alpha, cf)) in truths(fam, thorough).iter().enumerate() {
-            let ns: &[usize] = if thorough { &[32, 64, 200] } else { &[32, 64] };
+            let ns: &[usize] = if thorough { &[32, 64, 200, 513, 1024] } else { &[32, 64, 257] };
             for &n in ns {
                 for w in [WKind::None, WKind::Ones, WKind::Threes, WKind::Ramp, WKind::InvSigma] {
                     for (level, nv) in [(0.0, 0u64), (1e-4, 1), (1e-3, 2), (1e-2, 3), (1e-3, 0), (1e-2, 4)] {
@@ -758,7 +758,7 @@ fn c04_cases(thorough: bool, v: &mut dyn FnMut(Case)) {
         starts.push((0..p).map(|k| if k % 2 == 0 { 3.0 } else { 0.4 }).collect());
         for (si, sm) in starts.iter().enumerate() {
             for (ci, solver) in solvers.iter().enumerate() {
-                for w in [WKind::None, WKind::Ramp, WKind::ZeroAt(1)] {
+                for w in [WKind::None, WKind::Ramp, WKind::ZeroAt(1), WKind::Threes, WKind::Tiny] {
                     for (level, nv) in [(0.0, 0u64), (1e-2, 2)] {
                         for s in [1usize, 2] {
                             for (prov, par, f32_) in [(Prov::Hand, false, false), (Prov::Built, true, false), (Prov::Hand, false, true), (Prov::Built, false, false)] {
